@@ -183,7 +183,7 @@ func c02Prestate() (*verifFS, *refFS) {
 	add("/f", false, 0)
 	// a component name reused at a deeper level: "/e/d" is not below "/d"
 	add("/e/d", true, 0)
-	add("/e/d/k", false, 0)
+	add("/e/d/e", false, 0) // (its name consists of characters of its parent's path)
 	if vm.Bool("tombstone") {
 		// a name that was used and deleted earlier
 		v.Env.AddEntry("/t", tar.TypeReg, 0, true, "")
@@ -224,18 +224,31 @@ func c02Agree(v *verifFS, ref *refFS, checkMode bool) bool {
 
 const c02Ops = 10
 
-// Harness_C02_single_call_matches_reference: from a well-formed state, one call with a symbolic name
-// succeeds or fails exactly when the reference does, changes exactly what the reference changes, and a
-// failed call changes nothing.
-func Harness_C02_single_call_matches_reference() {
-	v, ref := c02Prestate()
-	pi := vm.Choice("parent", len(c02Parents))
-	comp := persisters.VerifComponent("N", 1, "gtx_")
-	name := c02Parents[pi] + "/" + comp
-	if vm.Bool("useExistingDirAsName") {
-		name = []string{"/d", "/e", "/f", "/d/g"}[vm.Choice("existing", 4)]
+// c02Step performs one call on both the filesystem and the reference and compares them. light restricts the
+// call to a small concrete vocabulary (used for the first call of a two-call history). It returns false when
+// the history should stop (a mismatch was already reported, or the path lies in a listed finding).
+func c02Step(v *verifFS, ref *refFS, tag string, light bool) bool {
+	var name string
+	var op int
+	if light {
+		name = []string{"/d/x", "/e/x", "/x", "/d/g", "/e/d", "/f", "/t"}[vm.Choice(tag+"name", 7)]
+		op = []int{0, 2, 4, 5, 6, 7}[vm.Choice(tag+"op", 6)]
+	} else {
+		pi := vm.Choice(tag+"parent", len(c02Parents))
+		comp := persisters.VerifComponent(tag+"N", 1, "gtx_")
+		name = c02Parents[pi] + "/" + comp
+		if vm.Bool(tag + "useExistingDirAsName") {
+			name = []string{"/d", "/e", "/f", "/d/g"}[vm.Choice(tag+"existing", 4)]
+		}
+		op = vm.Choice(tag+"op", c02Ops)
 	}
-	op := vm.Choice("op", c02Ops)
+	known := false
+	mark := func(id string, c bool) {
+		vm.Known(id, c)
+		if c {
+			known = true
+		}
+	}
 	var err error
 	want := false
 	checkMode := false
@@ -249,7 +262,7 @@ func Harness_C02_single_call_matches_reference() {
 		want = ref.mkdirAll(name)
 	case 2:
 		if x := ref.find(name); x != nil && !x.dir && x.size > 0 {
-			vm.Known("C02-otrunc-takes-effect-only-on-write", true)
+			mark("C02-otrunc-takes-effect-only-on-write", true)
 		}
 		h, e := v.FS.Create(name)
 		err = e
@@ -258,7 +271,7 @@ func Harness_C02_single_call_matches_reference() {
 		}
 		want = ref.create(name, false, true)
 	case 3:
-		excl := vm.Bool("excl")
+		excl := vm.Bool(tag + "excl")
 		flag := os.O_RDWR | os.O_CREATE
 		if excl {
 			flag |= os.O_EXCL
@@ -277,8 +290,8 @@ func Harness_C02_single_call_matches_reference() {
 		err = v.FS.RemoveAll(name)
 		want = ref.removeAll(name)
 	case 6:
-		// rename an existing file or directory onto the symbolic name
-		src := []string{"/d/g", "/d", "/f", "/e"}[vm.Choice("src", 4)]
+		// rename an existing file or directory onto the name
+		src := []string{"/d/g", "/d", "/f", "/e", "/e/d"}[vm.Choice(tag+"src", 5)]
 		vm.Known("C02-rename-onto-itself", name == src)
 		vm.Known("C02-rename-onto-existing-entry", ref.find(name) != nil && name != src)
 		vm.Known("C02-rename-onto-tombstoned-name", name == "/t")
@@ -300,8 +313,10 @@ func Harness_C02_single_call_matches_reference() {
 		want = ref.find(name) != nil
 	}
 	vm.Assert("C02.success_iff_reference_succeeds", (err == nil) == want)
+	agree := true
 	if want && err == nil {
-		vm.Assert("C02.successful_call_changes_what_reference_changes", c02Agree(v, ref, checkMode))
+		agree = c02Agree(v, ref, checkMode)
+		vm.Assert("C02.successful_call_changes_what_reference_changes", agree)
 	}
 	if err != nil {
 		vm.Assert("C02.failed_call_appends_nothing", v.Env.Tape.Appends == appendsBefore)
@@ -312,4 +327,19 @@ func Harness_C02_single_call_matches_reference() {
 	vm.Assert("C02.locks_free", v.Env.LocksFree())
 	vm.Cover("C02.some_success", err == nil)
 	vm.Cover("C02.some_failure", err != nil)
+	return !known && agree && (err == nil) == want
+}
+
+// Harness_C02_single_call_matches_reference: from a well-formed state, one call with a symbolic name
+// succeeds or fails exactly when the reference does, changes exactly what the reference changes, and a
+// failed call changes nothing. Thorough tier: a first call from a small concrete vocabulary precedes it, so
+// that the symbolic call also runs from states the filesystem produced itself.
+func Harness_C02_single_call_matches_reference() {
+	v, ref := c02Prestate()
+	if vm.Tier() == "thorough" && vm.Bool("twoCalls") {
+		if !c02Step(v, ref, "a.", true) {
+			return
+		}
+	}
+	c02Step(v, ref, "", false)
 }
